@@ -1053,6 +1053,10 @@ func (e *Engine) trCall(env *SpecEnv, n SCall) Val {
 			return Val{T: d, S: "String", GoT: tString}
 		}
 		return Val{T: f, S: "String", GoT: tString}
+	case "toLower":
+		// toLower(s): strings.ToLower as the same uninterpreted function the program model uses
+		e.sc.declareFun("strlower", []string{"String"}, "String")
+		return Val{T: "(strlower " + arg(0).T + ")", S: "String", GoT: tString}
 	case "decval":
 		// decval(s): the number a decimal numeral denotes (what big.Int.SetString(s, 10) stores; str.to_int for digit strings)
 		e.sc.declareFun("decval", []string{"String"}, "Int")
